@@ -132,6 +132,91 @@ def stages_env(rj):
 REQUEST_TIMEOUT_S = 90
 
 
+# ---- join keys of mixed numeric class (recorded finding plan:join-key-of-mixed-numeric-class) -------------
+def _sexp(text):
+    toks = re.findall(r"\(|\)|\"[^\"]*\"|[^\s()]+", text)
+    pos = [0]
+
+    def rd():
+        t = toks[pos[0]]
+        pos[0] += 1
+        if t == "(":
+            out = []
+            while pos[0] < len(toks) and toks[pos[0]] != ")":
+                out.append(rd())
+            pos[0] += 1
+            return out
+        return t
+    try:
+        return rd()
+    except IndexError:
+        return []
+
+
+def _num_class(e, coltypes):
+    """'int' | 'decimal' | 'float' | None (not a number, or unknown)"""
+    if isinstance(e, str):
+        m = re.fullmatch(r"\"?\$(\d+)\.(\d+)(?:\(\d+\))?\"?", e)
+        if m:
+            ty = coltypes.get((int(m.group(1)), int(m.group(2))), "")
+            return "int" if re.match(r"(int|smallint|bigint)", ty) else "float" if re.match(r"(double|float|real)", ty) else "decimal" if re.match(r"(decimal|numeric)", ty) else None
+        if re.fullmatch(r"-?\d+", e):
+            return "int"
+        if re.fullmatch(r"-?\d+\.\d+", e):
+            return "decimal"
+        return None
+    if not e:
+        return None
+    h = e[0]
+    if h == "cast" and len(e) == 3:
+        ty = str(e[1]).lower()
+        return "int" if re.match(r"(int|smallint|bigint)", ty) else "float" if re.match(r"(double|float|real)", ty) else "decimal" if re.match(r"(decimal|numeric)", ty) else None
+    if h in ("+", "-", "*", "/", "%") or h == '"%"':
+        cls = [_num_class(x, coltypes) for x in e[1:]]
+        if any(c is None for c in cls):
+            return None
+        return "float" if "float" in cls else "decimal" if "decimal" in cls else "int"
+    if h in ("ref", "desc") and len(e) == 2:
+        return _num_class(e[1], coltypes)
+    return None
+
+
+def mixed_class_join_keys(plan, setup):
+    """pairs (left key, right key) of a hash / merge join of the plan whose two sides are numbers of different class
+    (INT / DECIMAL / DOUBLE): `=` compares them by value, the join's hash table and the merge compare them by variant"""
+    coltypes = {}
+    ti = 0
+    for st in setup:
+        m = re.match(r"create table (\w+)\s*\((.*)\)\s*$", st.strip(), re.I | re.S)
+        if m:
+            ci = 0
+            for part in re.split(r",(?![^()]*\))", m.group(2)):
+                part = part.strip()
+                if re.match(r"(primary key|unique|constraint|foreign)\b", part, re.I):
+                    continue
+                w = part.split()
+                if len(w) >= 2:
+                    coltypes[(ti, ci)] = w[1].lower()
+                ci += 1
+            ti += 1
+    out = []
+
+    def walk(n):
+        if isinstance(n, list) and n:
+            if n[0] in ("hashjoin", "mergejoin") and len(n) == 7 and isinstance(n[3], list) and isinstance(n[4], list):
+                for lk, rk in zip(n[3][1:], n[4][1:]):
+                    a, b = _num_class(lk, coltypes), _num_class(rk, coltypes)
+                    if a and b and a != b:
+                        out.append((lk, rk, a, b))
+            for x in n[1:]:
+                walk(x)
+    walk(_sexp(plan or ""))
+    return out
+
+
+HJ_MIXED_SIG = "plan:join-key-of-mixed-numeric-class"
+
+
 def language_heads(rj):
     """the string heads of `define_language! { pub enum Expr` in src/planner/mod.rs"""
     try:
@@ -666,6 +751,18 @@ def run(ck):
                 stats["known_rule_diffs"] += 1
                 ck.report("plan:nl-outer-join-left-in-optimized-plan", "the optimized plan of `%s` keeps a nested-loop right/full outer join, which the executor cannot run (todo!(): the statement fails)" % c["sql"], replay=replay)
                 continue
+            # the recorded finding `plan:join-key-of-mixed-numeric-class`: BOTH a join key pair of different numeric
+            # class in the optimized plan AND the reference's answer again without the hash-join rules (nothing else
+            # about hash joins is attributed to it)
+            mixed = mixed_class_join_keys(on.get("optimized"), c["setup"]) if on["class"] == "ok" else []
+            if mixed:
+                hj_rules = sorted(n for n in by_name if n.startswith("hash-join"))
+                one = run_harness(ck, [{"id": "one", "engine": eng, "setup": c["setup"], "queries": [{"sql": c["sql"], "opt": "custom", "exclude": hj_rules, "plans": True}]}], "hjm%d" % k, stages).get("one")
+                if one and one["results"] and key(one["results"][0]) == key(ref) and not mixed_class_join_keys(one["results"][0].get("optimized"), c["setup"]):
+                    stats["known_rule_diffs"] += 1
+                    ck.report(HJ_MIXED_SIG, "optimizer changes the answer of `%s` on %s: the optimized plan joins on the key pair %s = %s (%s vs %s), which `=` compares by value and the hash / merge join by variant; the answer is the reference's again without the hash-join rules" % (
+                        c["sql"], eng, mixed[0][0], mixed[0][1], mixed[0][2], mixed[0][3]), replay=replay)
+                    continue
             # differs.  Is it explained by the rules of ONE recorded finding (the answer is the
             # reference's again once exactly those rules are left out)?
             explained = (refname != "off") or (key(cu) == key(off)) or on["class"] == "timeout"
